@@ -260,4 +260,4 @@ class DataManipulationBot(Application, discriminator="data-manipulation-bot"):
 
         :param timestep: The timestep value to update the bot's state.
         """
-        pass
+        super().apply_timestep(timestep=timestep)
